@@ -208,6 +208,7 @@ func runHarness(P *Program, spec HarnessSpec, workers int, solver string, verbos
 		hr.Status[r.Status]++
 		hr.Steps += r.Steps
 		hr.Queries += r.Queries
+		hr.SolverS += r.SolverS
 		hr.Unknown += r.Unknown
 		hr.Asserts += r.Asserts
 		hr.AssertUnsat += r.AssertUnsat
